@@ -264,7 +264,7 @@ mut("c12-confirmation-key-tag-only", "C12", APP,
     "            pending_tag = next((k for k in self._pending if k[1] == message_tag), (destination, message_tag))\n            request = self._pending[pending_tag]")
 mut("c12-req-lock-removed", "C12", APP,
     "                    async with self._req_lock:\n", "                    if True:\n")
-mut("c12-one-retry-less", "C12", APP, "RETRY_DELAYS = [0.5, 1.0, 1.5]", "RETRY_DELAYS = [0.5, 1.0]")
+# (shortening RETRY_DELAYS is a re-tuning of a configured constant the oracle reads from the tree: not a mutant)
 mut("c12-failed-confirmation-ignored", "C12", APP,
     "                if t.sl_Status.from_ember_status(send_status) != t.sl_Status.OK:\n                    raise zigpy.exceptions.DeliveryError(",
     "                if False:\n                    raise zigpy.exceptions.DeliveryError(")
